@@ -188,6 +188,11 @@ pub enum BadOp {
     NeitherEncoding,
     /// finalise an empty block under a hash that already belongs to an older block
     FinaliseExistingHash,
+    /// two fields wrong at once (mid-block): index 0 with another / an existing hash, hash and timestamp, index and timestamp
+    ZeroIdxOtherHash,
+    ZeroIdxExistingHash,
+    OtherHashAndTimestamp,
+    WrongIdxOtherTimestamp,
     OddPkscript,
     NonHexPkscript,
     UndecodableTx,
